@@ -14,7 +14,7 @@ Fr = fractions.Fraction
 
 def gen(chk, mpmath, rng):
     mp = mpmath.mp
-    for i in range(chk.pick(60, 1500)):
+    for i in range(chk.pick(150, 2000)):
         dps = rng.choice([15, 20, 30, 40])
         mp.dps = dps
         p = mp.prec
@@ -49,6 +49,22 @@ def gen(chk, mpmath, rng):
                 for m in ("talbot", "dehoog"):
                     v = mp.invertlaplace(F, T, method=m)
                     vals[m] = v.real if hasattr(v, "_mpc_") else v
+                # anchored to the specification's own series when the argument a*t is a dyadic number: the inverse must lie within
+                # 10^(3-dps/2) of exp / sin / cos of that exact argument as enclosed by RealFun (op "real"; tol in bits)
+                if t.denominator & (t.denominator - 1) == 0:
+                    from .. import enc
+                    import math
+                    arg = (-a * T) if which == "exp" else (a * T)           # exact: both are short dyadics
+                    at = arg._mpf_
+                    tolbits = p + int(math.floor((3 - dps // 2) * math.log2(10))) + 1
+                    for m in vals:
+                        yt = vals[m]._mpf_
+                        if not yt[1] or (which != "exp" and abs(vals[m]) < mp.mpf(2) ** -8):
+                            continue                                        # relative bound at a zero of sin / cos: left to the relational branch below
+                        w = p + 40 + max(0, at[2] + at[3]) + max(0, -(yt[2] + yt[3]))
+                        yield enc.event(0, "real", [enc.f(at)], p, "n", enc.f(yt), pb=0, x={"f": which, "w": w, "tol": tolbits}), \
+                            {"key": "series-enclosure/%s/%s" % (which, m), "a": str(a), "t": str(t), "dps": dps, "p": p,
+                             "what": "inverse transform is farther than 10^(3-dps/2) (relative) from the closed form enclosed by the spec's own series"}
                 mp.dps = 2 * dps + 10
                 ref = {"exp": lambda: mp.exp(-a * T), "sin": lambda: mp.sin(a * T), "cos": lambda: mp.cos(a * T)}[which]()
                 mp.dps = dps
